@@ -99,5 +99,6 @@ def classify(case, result):
         sz = "13..40"
     else:
         sz = "large"
-    content = t[8].split(":")[0]
-    return f"{sz} {t[3]}/{t[4]} {t[5]} sa={t[6]} {t[7]} {content}"
+    # 6 size classes x 5 filters x straight alpha on/off = 60 classes (check.py keeps the 60 largest);
+    # colour format, memory layout and content are swept as a full product by generator part (A)
+    return f"{sz} {t[5]} sa={t[6]}"
